@@ -48,7 +48,7 @@ CHECKS["C10"] = dict(
          "proves to_cpu(x) == x*m + o for ALL x (mod 2^64 unsigned; exact and trap-free when it fits, signed); closed facts: m positive integer, o non-negative, one common unit "
          "dividing the gcd of the scales and origin differences, offsets consistent with exact origins (origins written in kelvins, prefixed units and anonymous scalings of prefixed / derived units), "
          "type identical under permutation/repetition and through common_point_unit(...), equals an input exactly when m=1,o=0; the explicit-rep spellings (coerce_as<T>, converting constructor) "
-         "from narrow signed/unsigned reps into wider ones yield exactly x*m + o for ALL x whenever that fits.",
+         "from narrow signed/unsigned reps into wider ones yield exactly x*m + o for ALL x whenever that fits; lists include inputs that all share one non-zero origin with non-nested scales.",
     note=TB + "; lists enumerated; type-identity facts are compile-time booleans, not solver-decided.")
 CHECKS["C06"] = dict(
     category="model_checking",
@@ -96,7 +96,7 @@ CHECKS["C14"] = dict(
     technique="solver equivalence (SMT over clang LLVM IR) of Au product/quotient/power kernels with raw-operator / std-function reference kernels in the same TU; closed unit facts vs model",
     text="For reps x unit pairs and ALL operand values: q*q, q/q, s*q, s/q, unblock_int_div forms, int_pow<k>, sqrt, cbrt, as_raw_number equal the raw operator / libm call on the stored values (same bits or both NaN, "
          "same trap condition); int_pow on 8/16-bit reps equals x^k whenever x^k is representable; resulting units and collapse-to-raw-number are closed booleans vs a hand-written model table; as_raw_number compiles exactly when the documented policy accepts the conversion to the unitless unit "
-         "(grid rep x factor at the thresholds floor(max/2147), +1, 10^7, 10^9, non-integers) and accepted forms equal x*k for ALL x; units that cancel in dimension but leave an irrational factor (pi, 1/pi, sqrt 10, 100^(-1/3)) stay quantities, exactly cancelling ones collapse; roots of roots and roots of root-scaled units have the unit with the product of the exponents (hand-written facts).",
+         "(grid rep x factor at the thresholds floor(max/2147), +1, 10^7, 10^9, non-integers) and accepted forms equal x*k for ALL x; units that cancel in dimension but leave an irrational factor (pi, 1/pi, sqrt 10, 100^(-1/3)) stay quantities, exactly cancelling ones collapse; roots of roots and roots of root-scaled units have the unit with the product of the exponents; 1/q, symbol / q, constant / q keep the rep of the quantity operand (hand-written facts).",
     note=TB + "; libm functions are uninterpreted (congruence only); rejection clauses (integer-division guard, as_raw_number on dimensioned / overflow-risky input) are compiler verdicts observed at lowering, not solver results.")
 CHECKS["C17"] = dict(
     category="translation_validation",
